@@ -254,7 +254,7 @@ static void check_xcorr(int n1, int n2, bool cplx, vh::Rng& r) {
 
 static void check_ma(int n, int len, bool cplx, vh::Rng& r) {
     vh::begin_case("mafilter", "n=%d len=%d %s", n, len, cplx ? "complex" : "real");
-    const arr_cmplx x = make_input(r, len, int(r.below(3)), cplx);
+    const arr_cmplx x = make_input(r, len, int(r.below(4)), cplx);
     arr_cmplx y;
     arr_cmplx yf;
     if (cplx) {
@@ -318,10 +318,10 @@ int main(int argc, char** argv) {
 
     //coefficient lengths: all 2..64, every block boundary (m around 2^k), sampled others
     std::vector<int> ms;
-    for (int m = 2; m <= 64; ++m) {
+    for (int m = 2; m <= (thorough ? 1024 : 128); ++m) {
         ms.push_back(m);
     }
-    for (int k = 7; k <= 10; ++k) {
+    for (int k = 7; k <= (thorough ? 0 : 10); ++k) {
         for (int d = -2; d <= 2; ++d) {
             const int m = (1 << k) + d;
             if (m <= 1024) {
@@ -331,7 +331,7 @@ int main(int argc, char** argv) {
     }
     {
         vh::Rng r = vh::rng_for("ms");
-        const int extra = thorough ? 60 : 10;
+        const int extra = thorough ? 0 : 40;
         for (int i = 0; i < extra; ++i) {
             ms.push_back(int(r.range(65, 1024)));
         }
@@ -354,9 +354,11 @@ int main(int argc, char** argv) {
                     continue;
                 }
                 vh::Rng r = vh::rng_for("fir", (uint64_t(mi) * 100 + ni) * 2 + cplx);
-                const CoefKind ck = CoefKind(r.below(5));
-                const int ik = int(r.below(4));
-                check_fir(m, ns[ni], ck, ik, cplx != 0, r);
+                for (int rep = 0; rep < (thorough && m <= 256 ? 3 : 1); ++rep) {
+                    const CoefKind ck = CoefKind(r.below(5));
+                    const int ik = int(r.below(4));
+                    check_fir(m, ns[ni], ck, ik, cplx != 0, r);
+                }
                 if (!thorough && m > 64) {
                     continue;
                 }
@@ -371,7 +373,7 @@ int main(int argc, char** argv) {
     }
     //long inputs
     {
-        const int cnt = thorough ? 6 : 1;
+        const int cnt = thorough ? 48 : 4;
         for (int i = 0; i < cnt; ++i) {
             if (!vh::mine(idx++)) {
                 continue;
@@ -383,11 +385,12 @@ int main(int argc, char** argv) {
             vh::obs_max("longest_input", n);
         }
     }
-    vh::sample("FirFilter/FftFilter: coefficient lengths 2..64 and 2^k-2..2^k+2 (k=7..10) x input lengths {0,1,m-1,m,B-1,B,B+1,2B,2B+1,3B-1,4B+1,7B+3} (B = FFT block), inputs random / impulsive / 1e+-12 dynamic range / burst-silence-burst x real/complex");
+    vh::sample("FirFilter/FftFilter: coefficient lengths 2..128 and 2^k-2..2^k+2 (k=7..10) plus sampled ones (thorough: every length 2..1024) x input lengths {0,1,m-1,m,B-1,B,B+1,2B,2B+1,3B-1,4B+1,7B+3} (B = FFT block), inputs random / impulsive / 1e+-12 dynamic range / burst-silence-burst x real/complex");
 
     //xcorr: all pairs to 48
-    for (int n1 = 1; n1 <= 48; ++n1) {
-        for (int n2 = 1; n2 <= 48; ++n2) {
+    const int xmax = thorough ? 96 : 48;
+    for (int n1 = 1; n1 <= xmax; ++n1) {
+        for (int n2 = 1; n2 <= xmax; ++n2) {
             if (!vh::mine(idx++)) {
                 continue;
             }
@@ -397,7 +400,7 @@ int main(int argc, char** argv) {
         }
     }
     {
-        const int cnt = thorough ? 60 : 8;
+        const int cnt = thorough ? 600 : 48;
         for (int i = 0; i < cnt; ++i) {
             if (!vh::mine(idx++)) {
                 continue;
@@ -408,17 +411,28 @@ int main(int argc, char** argv) {
             check_xcorr(n1, n2, r.coin(), r);
         }
     }
-    vh::sample("xcorr: all (n1,n2) in 1..48 x 1..48, real and complex, every lag -(n2-1)..n1-1 against the defining sum");
+    vh::sample("xcorr: all (n1,n2) in 1..48 x 1..48 (thorough: 1..96 x 1..96), real and complex, every lag -(n2-1)..n1-1 against the defining sum");
 
     //moving average
-    for (int n : std::vector<int>{1, 2, 3, 4, 7, 16, 64, 100, 1000}) {
+    std::vector<int> mans;
+    for (int n = 1; n <= (thorough ? 130 : 20); ++n) {
+        mans.push_back(n);
+    }
+    for (int n : {31, 32, 33, 64, 100, 127, 128, 255, 256, 500, 1000}) {
+        if (std::find(mans.begin(), mans.end(), n) == mans.end()) {
+            mans.push_back(n);
+        }
+    }
+    for (int n : mans) {
         for (int cplx = 0; cplx < 2; ++cplx) {
-            if (!vh::mine(idx++)) {
-                continue;
+            for (int rep = 0; rep < (thorough ? 4 : 2); ++rep) {
+                if (!vh::mine(idx++)) {
+                    continue;
+                }
+                vh::Rng r = vh::rng_for("ma", (uint64_t(n) * 2 + cplx) * 8 + rep);
+                check_ma(n, 3 * n + 7, cplx != 0, r);
+                check_ma(n, thorough ? 20000 : 3000, cplx != 0, r);
             }
-            vh::Rng r = vh::rng_for("ma", n * 2 + cplx);
-            check_ma(n, 3 * n + 7, cplx != 0, r);
-            check_ma(n, thorough ? 20000 : 3000, cplx != 0, r);
         }
     }
     vh::g.exhaustive = true;
